@@ -253,7 +253,7 @@ def local_deps(body, v, start):
                     if k in rv and isinstance(rv[k], dict):
                         ops.append(rv[k])
                 ops += rv.get("ops", [])
-                if rv["k"] == "ref":
+                if isinstance(rv.get("place"), dict):      # ref / discriminant / len of a place
                     work.append(rv["place"]["l"])
             elif d[0] == "call":
                 ops += d[2]["args"]
@@ -263,13 +263,142 @@ def local_deps(body, v, start):
     return seen
 
 
+def linear_forms(ctx, body, v, local, a_arg, p_arg, depth=0):
+    """Set of linear forms {symbol: coeff} (symbols P, Q = statrs' regularised lower / upper incomplete gamma at (a, x); p; 1)
+    the local can hold, one per definition; None if some definition is outside the fragment."""
+    from .. import intervals as iv
+    if depth > 10:
+        return None
+    out = []
+    defs = [d for d in v.defs.get(local, []) if not body.blocks[d[1]]["cleanup"]]
+    if not defs:
+        return None
+
+    def of_operand(o):
+        c = iv.const_value(ctx.facts, body, v, o)
+        if isinstance(c, float):
+            return [{"1": c}]
+        if o["k"] in ("copy", "move") and not o["place"]["p"]:
+            l = o["place"]["l"]
+            if l == p_arg:
+                return [{"p": 1.0}]
+            if l <= body.arg_count:
+                return None
+            return linear_forms(ctx, body, v, l, a_arg, p_arg, depth + 1)
+        return None
+
+    def comb(fa, fb, sa, sb):
+        res = []
+        for x in fa:
+            for y in fb:
+                z = {}
+                for k_, c_ in x.items():
+                    z[k_] = z.get(k_, 0.0) + sa * c_
+                for k_, c_ in y.items():
+                    z[k_] = z.get(k_, 0.0) + sb * c_
+                res.append({k_: c_ for k_, c_ in z.items() if c_ != 0.0})
+        return res
+    for d in defs:
+        if d[0] == "call":
+            t = d[2]
+            c = t.get("callee") or {}
+            if c.get("crate") == "statrs" and c.get("name") in ("gamma_lr", "gamma_ur"):
+                ar = v.root(t["args"][0])
+                if not (ar.kind == "arg" and ar.base[1] == a_arg):
+                    return None
+                out.append({"P" if c["name"] == "gamma_lr" else "Q": 1.0})
+                continue
+            return None
+        rv = d[3]
+        if rv["k"] == "use":
+            f_ = of_operand(rv["op"])
+            if f_ is None:
+                return None
+            out += f_
+        elif rv["k"] == "binop" and rv["op"] in ("Add", "Sub"):
+            fa, fb = of_operand(rv["a"]), of_operand(rv["b"])
+            if fa is None or fb is None:
+                return None
+            out += comb(fa, fb, 1.0, 1.0 if rv["op"] == "Add" else -1.0)
+        elif rv["k"] == "unop" and rv["op"] == "Neg":
+            fa = of_operand(rv["a"])
+            if fa is None:
+                return None
+            out += comb(fa, [{}], -1.0, 0.0)
+        else:
+            return None
+    return out
+
+
+def is_error_form(f_):
+    """±(P − p)  or  ±(Q − (1 − p)):  the distance between the achieved and the requested probability."""
+    for sgn in (1.0, -1.0):
+        g = {k_: sgn * c_ for k_, c_ in f_.items()}
+        if g == {"P": 1.0, "p": -1.0} or g == {"Q": -1.0, "1": 1.0, "p": -1.0}:
+            return True
+    return False
+
+
+def tolerance_bound(ctx, R, impl, wrapper, v, operand):
+    """Upper bound of the convergence threshold: product of compile-time constants and of the tolerance parameter, whose value is the
+    constant `sample` passes.  Returns (bound | None, description)."""
+    from .. import intervals as iv
+    c = iv.const_value(ctx.facts, impl, v, operand)
+    if isinstance(c, float):
+        return c, "constant %.3g" % c
+    r = v.root(operand)
+    rv = v.rvalue_of(r) if r.kind == "local" else None
+    if rv is None or rv["k"] != "binop" or rv["op"] != "Mul":
+        return None, "threshold is not a constant or tolerance·constant"
+    total, desc = 1.0, []
+    for side in (rv["a"], rv["b"]):
+        cs = iv.const_value(ctx.facts, impl, v, side)
+        if isinstance(cs, float):
+            total *= cs
+            desc.append("%.3g" % cs)
+            continue
+        sr = v.root(side)
+        if not (sr.kind == "arg" and not sr.path):
+            return None, "threshold factor %r is neither a constant nor a parameter" % (sr,)
+        k = sr.base[1]
+        # impl parameter k  <-  wrapper's call argument  <-  to_f64(wrapper parameter j)  <-  sample's call argument from_f64(const)
+        vw = Vals(wrapper)
+        ws = [(bi, t) for bi, t, cb in R.local_callees(wrapper) if cb is impl]
+        if len(ws) != 1:
+            return None, "call of the f64 routine in the wrapper"
+        wr = vw.root(ws[0][1]["args"][k - 1])
+        wt = vw.call_term(wr)
+        j = None
+        if wt is not None and callee_is(wt, trait="MomTropFloat", name="to_f64"):
+            jr = vw.root(wt["args"][0])
+            j = jr.base[1] if jr.kind == "arg" else None
+        if j is None:
+            return None, "tolerance argument of the f64 routine is not to_f64(wrapper parameter)"
+        smp = R.sample()
+        vs = Vals(smp)
+        ss = [(bi, t) for bi, t, cb in R.local_callees(smp) if cb is wrapper]
+        if len(ss) != 1:
+            return None, "call of the quantile in sample"
+        ar = vs.root(ss[0][1]["args"][j - 1])
+        at = vs.call_term(ar)
+        val = None
+        if at is not None and callee_is(at, trait="MomTropFloat", name="from_f64"):
+            val = iv.const_value(ctx.facts, smp, vs, at["args"][1])
+        if not isinstance(val, float):
+            return None, "sample does not pass a compile-time tolerance"
+        total *= val
+        desc.append("tolerance %.3g (as passed by sample)" % val)
+    return total, " · ".join(desc)
+
+
 def rule_f(ctx, R):
     """Accuracy certificate: which values can the f64 routine return, and what vouches for each."""
     from .. import intervals as iv
     from .. import cfg
     ctx.rule("C12-f", "every value the f64 routine returns for a shape in [0.05, 100] is (1) the Newton iterate x certified in the same iteration by "
-                      "|P(a,x) − p| (or |Q(a,x) − q|) < ε, (2) the iterate left when the iterations are exhausted (accuracy not decided), or (3) a closed "
-                      "form reachable only for |a − 1| ≤ w with 0.4916·w ≤ 2e-8 (exact at a = 1) or only when q·Γ(a) ≤ c < 2^-53·min Γ (impossible for p < 1)")
+                      "|P(a,x) − p| (or |Q(a,x) − q|) < ε, (2) that iterate handed back without the certificate (iterations exhausted; accuracy not decided), "
+                      "or (3) a closed form reachable only for |a − 1| ≤ w with 0.4916·w ≤ 2e-8 (exact at a = 1) or only when (1−p)·Γ(a) ≤ c < 2^-53·min Γ "
+                      "(impossible for p < 1)")
     try:
         q = R.quantile()
     except RoleLost as e:
@@ -285,74 +414,104 @@ def rule_f(ctx, R):
     if len(f64_args) < 2:
         return ctx.lost("C12-f", "the (a, p) parameters of the f64 routine", fn)
     a_arg, p_arg = f64_args[0], f64_args[1]
-    heads = common.loop_next_sites(body, v)
-    if len(heads) != 1:
-        return ctx.lost("C12-f", "the single iteration loop of the f64 routine (found %d)" % len(heads), fn)
-    nbb, sbb, some_t, none_t, nt = heads[0]
-    loop_blocks = body.reachable_from(some_t, avoid=frozenset([nbb]))
-    after = body.reachable_from(none_t)
+    asucc = cfg.acyclic_succs(body)
+
+    def areach(start):
+        seen, st_ = set(), [start]
+        while st_:
+            x = st_.pop()
+            if x in seen:
+                continue
+            seen.add(x)
+            st_.extend(y for y in asucc[x] if not body.blocks[y]["cleanup"])
+        return seen
     IN = iv.reach(ctx.facts, body, Root(("arg", a_arg), ()), A_DOMAIN, v)
     tcd = cfg.transitive_control_deps(body, acyclic=True)
     statrs_sites = [(bi, t) for bi, t in body.calls() if (t.get("callee") or {}).get("crate") == "statrs"
-                    and t["callee"].get("name") in ("gamma_lr", "gamma_ur", "checked_gamma_lr", "checked_gamma_ur") and bi in loop_blocks]
+                    and t["callee"].get("name") in ("gamma_lr", "gamma_ur", "checked_gamma_lr", "checked_gamma_ur")]
     rets = [(bi, st) for bi, si, st in pat.stmts(body) if st["place"]["l"] == 0 and not st["place"]["p"]]
-    kinds = {"certified": 0, "exhausted": 0, "closed-form": 0, "unreachable": 0}
+
+    def convergence_guards(bi):
+        """[(switch block, statrs sites feeding the tested error)] for `|err| < ε` true edges controlling block bi."""
+        out = []
+        for (sb, tgt) in tcd[bi]:
+            t = body.blocks[sb]["term"]
+            if t["k"] != "switch":
+                continue
+            c = v.classify_bool(t["discr"])
+            if not c or c[0] != "binop" or c[1]["op"] not in ("Lt", "Le"):
+                continue
+            te, fe = bool_edges(body, sb)
+            if tgt != te:
+                continue
+            lt = v.call_term(v.root(c[1]["a"]))
+            if lt is None or (lt.get("callee") or {}).get("name") != "abs" or not lt["args"]:
+                continue
+            er = v.root(lt["args"][0])
+            deps = local_deps(body, v, er.base[1]) if er.kind == "local" else set()
+            feeding = [(cbi, ct) for cbi, ct in statrs_sites if ct["dest"]["l"] in deps]
+            if not feeding:
+                continue
+            forms = linear_forms(ctx, body, v, er.base[1], a_arg, p_arg)
+            exact = forms is not None and bool(forms) and all(is_error_form(f_) for f_ in forms)
+            bound, bdesc = tolerance_bound(ctx, R, body, q, v, c[1]["b"])
+            if exact and bound is not None and bound <= TOL:
+                out.append((sb, feeding, "|P(a,x) − p| < %s = %.3g" % (bdesc, bound)))
+        return out
+    kinds = {"certified": 0, "uncertified-iterate": 0, "closed-form": 0, "unreachable": 0}
     iter_local = None
+    pending = []
     for bi, st in rets:
         rv = st["rv"]
         vr = v.root(rv["op"]) if rv["k"] == "use" else None
         wh = pat.where(st)
-        if bi in loop_blocks:
-            # (1) certified by the convergence test
-            ok, why = False, "no `|err| < ε` comparison controls this return"
+        guards = convergence_guards(bi)
+        if not guards:
+            pending.append((bi, st, vr, wh))
+            continue
+        ok, why = False, ""
+        for sb, feeding, gdesc in guards:
+            same_x = vr is not None and all(v.root(ct["args"][1]) == vr for _c, ct in feeding)
+            a_ok = all((lambda r_: r_.kind == "arg" and r_.base[1] == a_arg)(v.root(ct["args"][0])) for _c, ct in feeding)
+            if not same_x or not a_ok:
+                why = "the certified point (%s) differs from the returned value (%r)" % ([repr(v.root(ct["args"][1])) for _c, ct in feeding], vr)
+                continue
+            dirty = []
+            if vr.kind == "local":
+                reach_ret = set(b for b in range(len(body.blocks)) if bi in areach(b))
+                for cbi, _ct in feeding:
+                    region = areach(cbi) & reach_ret
+                    for b2, si2, st2 in pat.stmts(body):
+                        if b2 in region and b2 != cbi and st2["place"]["l"] == vr.base[1] and not st2["place"]["p"]:
+                            dirty.append(pat.where(st2))
+            if dirty:
+                why = "the iterate is modified between its evaluation and the return (%s)" % dirty
+                continue
+            ok, why = True, "guard at %s: %s" % (pat.where(body.blocks[sb]["term"]), gdesc)
+            iter_local = vr
+        kinds["certified"] += 1 if ok else 0
+        ctx.ob("C12-f", "return at %s under the convergence test hands back the tested iterate (%s)" % (wh, why), ok, fn, "return:certified", where=wh,
+               detail="a value is returned under the convergence test |P(a,x) − p| < ε, but it is not the iterate that passed the test: %s" % why)
+    for bi, st, vr, wh in pending:
+        if vr is not None and iter_local is not None and vr == iter_local:
+            # allowed only as the exhaustion exit: every loop-internal condition it depends on must be the iteration bound
+            nl = set()
+            for _h, bl in cfg.loops(body):
+                nl |= bl
+            bound_params = set(l["i"] for l in body.locals[1:body.arg_count + 1] if l["ty"] in ("usize", "u32", "u64", "isize", "i32", "i64"))
+            early = []
             for (sb, tgt) in tcd[bi]:
-                c = v.classify_bool(body.blocks[sb]["term"]["discr"])
-                if not c or c[0] != "binop" or c[1]["op"] not in ("Lt", "Le"):
+                t = body.blocks[sb]["term"]
+                if sb not in nl or t["k"] != "switch" or t["discr"]["k"] not in ("copy", "move"):
                     continue
-                te, fe = bool_edges(body, sb)
-                if tgt != te:
-                    continue
-                lt = v.call_term(v.root(c[1]["a"]))
-                if lt is None or (lt.get("callee") or {}).get("name") != "abs":
-                    why = "the comparison's left side is not an absolute value"
-                    continue
-                er = v.root(lt["args"][0])
-                deps = local_deps(body, v, er.base[1]) if er.kind == "local" else set()
-                feeding = [(cbi, ct) for cbi, ct in statrs_sites if ct["dest"]["l"] in deps]
-                if not feeding:
-                    why = "the tested error is not computed from the incomplete gamma function"
-                    continue
-                same_x = vr is not None and all(v.root(ct["args"][1]) == vr for _c, ct in feeding)
-                a_ok = all((lambda r_: r_.kind == "arg" and r_.base[1] == a_arg)(v.root(ct["args"][0])) for _c, ct in feeding)
-                p_dep = p_arg in [r_ for r_ in ()]  # placeholder (target p / q is part of err by construction below)
-                if not same_x or not a_ok:
-                    why = "the certified point differs from the returned value (returned %r)" % (vr,)
-                    continue
-                # no assignment to x between its evaluation and the return
-                dirty = []
-                if vr.kind == "local":
-                    reach_ret = set(b for b in loop_blocks if bi in body.reachable_from(b, avoid=frozenset([nbb])))
-                    for cbi, _ct in feeding:
-                        region = body.reachable_from(cbi, avoid=frozenset([nbb])) & reach_ret
-                        for b2, si2, st2 in pat.stmts(body):
-                            if b2 in region and b2 != cbi and st2["place"]["l"] == vr.base[1] and not st2["place"]["p"]:
-                                dirty.append(pat.where(st2))
-                if dirty:
-                    why = "the iterate is modified between its evaluation and the return (%s)" % dirty
-                    continue
-                ok, why = True, "guard at %s" % pat.where(body.blocks[sb]["term"])
-                iter_local = vr
-            kinds["certified"] += 1 if ok else 0
-            ctx.ob("C12-f", "return at %s inside the iteration is certified by the convergence test (%s)" % (wh, why), ok, fn, "return:in-loop", where=wh,
-                   detail="a value is returned from inside the Newton loop without the same iterate having passed |P(a,x) − p| < ε: %s" % why)
+                if not (local_deps(body, v, t["discr"]["place"]["l"]) & bound_params):
+                    early.append(pat.where(t))
+            kinds["uncertified-iterate"] += 1
+            ctx.ob("C12-f", "return at %s hands back the iterate without the certificate only when the iterations are exhausted (accuracy of this exit "
+                            "is not decided)" % wh, not early, fn, "return:iterate", where=wh,
+                   detail="the iterate is returned from inside the iteration under a condition (%s) that is neither the convergence test nor the "
+                          "iteration bound: an uncertified value can be returned early" % early)
             continue
-        if bi in after and vr is not None:
-            kinds["exhausted"] += 1
-            ctx.ob("C12-f", "return at %s after the loop hands back the iterate (non-converged exit; accuracy of this exit is not decided)" % wh,
-                   iter_local is None or vr == iter_local, fn, "return:after-loop", where=wh,
-                   detail="the value returned after the loop (%r) is not the certified iterate (%r)" % (vr, iter_local))
-            continue
-        # closed form before the loop
         reach_a = IN.get(bi)
         if not reach_a:
             kinds["unreachable"] += 1
@@ -365,10 +524,10 @@ def rule_f(ctx, R):
             ctx.ob("C12-f", "closed-form return at %s is taken only for |a − 1| ≤ %.3g (error ≤ 0.4916·w = %.2g ≤ 2e-8)" % (wh, w, LIP_AT_ONE * w), True, fn,
                    "return:closed-form", where=wh)
             continue
-        # q·Γ(a) ≤ c guard
         ok5, c5 = False, None
         for (sb, tgt) in tcd[bi]:
-            c = v.classify_bool(body.blocks[sb]["term"]["discr"])
+            t = body.blocks[sb]["term"]
+            c = v.classify_bool(t["discr"]) if t["k"] == "switch" else None
             if not c or c[0] != "binop" or c[1]["op"] not in ("Lt", "Le"):
                 continue
             te, fe = bool_edges(body, sb)
@@ -379,9 +538,8 @@ def rule_f(ctx, R):
             rvb = v.rvalue_of(br)
             if rvb is None or rvb["k"] != "binop" or rvb["op"] != "Mul":
                 continue
-            sides = [v.root(rvb["a"]), v.root(rvb["b"])]
             is_q = is_g = False
-            for sd in sides:
+            for sd in (v.root(rvb["a"]), v.root(rvb["b"])):
                 rq = v.rvalue_of(sd) if sd.kind == "local" else None
                 if rq is not None and rq["k"] == "binop" and rq["op"] == "Sub" and iv.const_value(ctx.facts, body, v, rq["a"]) == 1.0:
                     pr = v.root(rq["b"])
